@@ -3,8 +3,8 @@
 p=$1
 pre=${2:-r2-}
 mkdir -p /verif/refactors/$p
-for f in /tmp/seed/$p/out/*.py; do [ -f "$f" ] && cp "$f" /verif/refactors/$p/; done
-for d in /tmp/seed/$p/out/*/; do
+for f in ${SEEDROOT:-/tmp/seed}/$p/out/*.py; do [ -f "$f" ] && cp "$f" /verif/refactors/$p/; done
+for d in ${SEEDROOT:-/tmp/seed}/$p/out/*/; do
   k=$(basename $d)
   [ -f $d/patch.diff ] || continue
   mkdir -p /verif/refactors/$p/$pre$k
